@@ -2,6 +2,7 @@ package sim
 
 import (
 	"fmt"
+	"os"
 	"sort"
 	"strings"
 	"sync"
@@ -374,6 +375,9 @@ func (e *C11) Run(ctx *core.Ctx, idx int) {
 	desc := map[string]any{"scenario": cs.script, "faults": hit}
 	if len(hit) > 0 && ctx.Rand.Intn(300) == 0 {
 		ctx.Sample(desc)
+	}
+	if os.Getenv("VH_DEBUG") != "" && len(hit) > 0 && strings.Contains(hit[0], "update ExtendedDaemonSet @extendeddaemonset.(*Reconciler).updateInstanceWithCurrentRS") && !strings.Contains(hit[0], "status-update") {
+		fmt.Fprintf(os.Stderr, "DEBUG %s %v\nFINAL:\n%s\nBASE:\n%s\nTRACE:\n%s\n", cs.script, hit, final, base.final, strings.Join(w.Trace, "\n"))
 	}
 	if final != base.final {
 		attrs := map[string]string{"scenario": cs.script, "fault": cs.f1.String(), "pair": fmt.Sprint(cs.k2 > 0)}
